@@ -812,25 +812,16 @@ Proof.
     rewrite Hns in Hs'.
     assert (Hp : in_pos inn' = in_pos inn).
     { destruct r as [t| |e]; [destruct Hr as (_ & Hp & _)|destruct Hr as (Hp & _)|]; assumption. }
-    assert (Hg1 : forall ph', ph' = PBgHead \/ ph' = PBgLoop \/ (exists ow, ph' = PBgWait ow) ->
+    assert (Hg1 : forall ph', ph' = PBgHead \/ ph' = PBgSf ->
               miss_good W (mkMI v k mk kf mx inn' buf recs true ini ph' o)).
     { intros ph' Hph'. apply miss_good_bg; auto.
-      - destruct Hph' as [->|[->|(ow & ->)]]; discriminate.
+      - destruct Hph' as [->| ->]; discriminate.
       - unfold buf_good in *; simpl in *. rewrite Hp.
-        destruct Hph' as [->|[->|(ow & ->)]]; exact Hbuf. }
-    assert (Hother : Inv W (fst (match alist_get k (st_sf st) with
-              | Some owner => (set_iter st i (IMiss (mi_set_phase (mi_set_inner mm inn') (PBgWait owner))), OBgRes (Some r) false)
-              | None => (set_iter (set_sf st ((k, i) :: st_sf st)) i (IMiss (mi_set_phase (mi_set_inner mm inn') PBgLoop)), OBgRes (Some r) false)
-              end)) /\
-            bg_frame st (fst (match alist_get k (st_sf st) with
-              | Some owner => (set_iter st i (IMiss (mi_set_phase (mi_set_inner mm inn') (PBgWait owner))), OBgRes (Some r) false)
-              | None => (set_iter (set_sf st ((k, i) :: st_sf st)) i (IMiss (mi_set_phase (mi_set_inner mm inn') PBgLoop)), OBgRes (Some r) false)
-              end)) i mm).
-    { destruct (alist_get k (st_sf st)) as [ow|]; simpl.
-      - split; [apply Inv_set_iter; [assumption|]; apply Hg1; right; right; eexists; reflexivity|].
-        frame_with (mkMI v k mk kf mx inn' buf recs true ini (PBgWait ow) o).
-      - split; [apply Inv_set_iter; [apply Inv_set_sf; assumption|]; apply Hg1; auto|].
-        frame_with (mkMI v k mk kf mx inn' buf recs true ini PBgLoop o). }
+        destruct Hph' as [->| ->]; exact Hbuf. }
+    assert (Hother : Inv W (set_iter st i (IMiss (mi_set_phase (mi_set_inner mm inn') PBgSf))) /\
+                     bg_frame st (set_iter st i (IMiss (mi_set_phase (mi_set_inner mm inn') PBgSf))) i mm).
+    { split; [apply Inv_set_iter; [assumption|]; apply Hg1; right; reflexivity|].
+      frame_with (mkMI v k mk kf mx inn' buf recs true ini PBgSf o). }
     destruct r as [t| |e]; try exact Hother.
     destruct Hr as (_ & Hd). specialize (Hd Hns).
     destruct (flush st (mi_set_inner mm inn')) as [st1 m2] eqn:Efl.
@@ -839,6 +830,21 @@ Proof.
       as (HI1 & Hit1 & _ & Hg2 & Hk2 & Ho2 & Hv2 & Hc2).
     simpl. split; [apply Inv_set_iter; assumption|].
     exists (mi_finish m2). simpl. rewrite Hit1. simpl in *. auto.
+  - (* PBgSf *)
+    assert (Ec : cl = true) by (destruct cl; [reflexivity|]; destruct Hcl as [Hcl _]; discriminate (Hcl eq_refl)).
+    subst cl.
+    assert (Hns : in_stopped inn = false) by (apply Hst; discriminate).
+    assert (Hg1 : forall ph', ph' = PBgLoop \/ (exists ow, ph' = PBgWait ow) ->
+              miss_good W (mkMI v k mk kf mx inn buf recs true ini ph' o)).
+    { intros ph' Hph'. apply miss_good_bg; auto.
+      - destruct Hph' as [->|(ow & ->)]; discriminate.
+      - unfold buf_good in *; simpl in *.
+        destruct Hph' as [->|(ow & ->)]; exact Hbuf. }
+    destruct (alist_get k (st_sf st)) as [ow|]; simpl.
+    + split; [apply Inv_set_iter; [assumption|]; apply Hg1; right; eexists; reflexivity|].
+      frame_with (mkMI v k mk kf mx inn buf recs true ini (PBgWait ow) o).
+    + split; [apply Inv_set_iter; [apply Inv_set_sf; assumption|]; apply Hg1; auto|].
+      frame_with (mkMI v k mk kf mx inn buf recs true ini PBgLoop o).
   - (* PBgWait *)
     destruct (alist_get k (st_sf st)) as [ow|]; simpl.
     + destruct (Nat.eqb ow owner); simpl.
@@ -904,4 +910,722 @@ Proof.
         -- frame_with (mi_finish (mkMI V1 k mk kf mx inn' buf recs true ini PBgLoop o)).
         -- frame_with (mi_finish (mkMI V2 k mk kf mx inn' None recs true ini PBgLoop o)).
   - (* PFin *) split; [assumption|apply bg_frame_refl; assumption].
+Qed.
+
+Lemma bg_timeout_inv W st i m :
+  Inv W st -> nth_error (st_iters st) i = Some (IMiss m) ->
+  Inv W (fst (bg_timeout st i m)) /\ bg_frame st (fst (bg_timeout st i m)) i m.
+Proof.
+  intros HI Hn.
+  assert (Hg : miss_good W m) by (apply (Inv_iter _ _ _ _ HI Hn)).
+  destruct m as [v k mk kf mx inn buf recs cl ini ph o].
+  destruct Hg as (Hin & Hkf & Hcl & Hst & _ & Hpre & Hbuf). simpl in *.
+  unfold bg_timeout; simpl.
+  assert (Hrefl : Inv W st /\ bg_frame st st i (mkMI v k mk kf mx inn buf recs cl ini ph o))
+    by (split; [assumption|apply bg_frame_refl; assumption]).
+  destruct v; [exact Hrefl|].
+  destruct ph; try exact Hrefl;
+    (assert (Ec : cl = true) by (destruct cl; [reflexivity|]; destruct Hcl as [Hcl _]; discriminate (Hcl eq_refl)));
+    subst cl; simpl.
+  - split.
+    + apply Inv_set_iter; [assumption|]. simpl. apply miss_good_fin; auto; try (apply inner_good_stop; assumption).
+    + frame_with (mi_finish (mkMI V2 k mk kf mx inn None recs true ini PBgHead o)).
+  - split.
+    + apply Inv_set_iter; [assumption|]. simpl. apply miss_good_fin; auto; try (apply inner_good_stop; assumption).
+    + frame_with (mi_finish (mkMI V2 k mk kf mx inn None recs true ini PBgSf o)).
+  - split.
+    + apply Inv_set_iter; [apply Inv_release_sf; assumption|]. simpl.
+      apply miss_good_fin; auto; try (apply inner_good_stop; assumption).
+    + frame_with (mi_finish (mkMI V2 k mk kf mx inn None recs true ini PBgLoop o)).
+Qed.
+
+Lemma do_open_inv W st q :
+  Inv W st -> q_ok W q ->
+  Inv W (fst (do_open st q)) /\
+  exists it, st_iters (fst (do_open st q)) = st_iters st ++ [it].
+Proof.
+  intros HI (Hitems & Hlossy & Hnb). unfold do_open.
+  assert (Hinner : inner_good (w_full W (q_key q)) (mk_inner q)).
+  { unfold inner_good, mk_inner; simpl. repeat split; auto. lia. }
+  destruct (bypass q) eqn:Eb.
+  - destruct (q_openerr q); simpl.
+    + split; [apply Inv_push_iter; [assumption|exact I]|eexists; reflexivity].
+    + split; [|eexists; reflexivity]. apply Inv_push_iter; [assumption|].
+      simpl. unfold byp_good. split; [exact Hinner|]. split; reflexivity.
+  - destruct (Hnb eq_refl) as (Hkf & Hcons).
+    destruct (find_in_cache (q_var q) (st_cache st) (st_inval st) (q_key q) (q_markers q)) as [found c'] eqn:Ef.
+    destruct HI as (Hc & Hw & Hi).
+    destruct (find_in_cache_good _ _ _ _ _ _ _ _ Hc Ef) as (Hc' & Hfound).
+    assert (HI1 : Inv W (set_cache st c')) by (unfold Inv; simpl; auto).
+    destruct found as [e|].
+    + simpl. split; [|eexists; reflexivity]. apply Inv_push_iter; [assumption|].
+      destruct Hfound as (Heg & His & _).
+      simpl. unfold hit_good; simpl. split; [|split; [lia|reflexivity]].
+      destruct (q_var q) eqn:Ev; destruct e as [recs ts|ms ts]; simpl in His; try discriminate; simpl in *.
+      * rewrite Heg, <- Hkf, <- Hitems. rewrite map_reconstruct_elide by assumption. symmetry. apply map_id.
+      * rewrite Heg, <- Hitems. apply map_reconstruct2_minimal. assumption.
+    + destruct (q_openerr q); simpl.
+      * split; [apply Inv_push_iter; [assumption|exact I]|eexists; reflexivity].
+      * split; [|eexists; reflexivity]. apply Inv_push_iter; [assumption|].
+        simpl. apply miss_good_intro; simpl; auto.
+        -- split; reflexivity.
+        -- unfold buf_good; simpl. reflexivity.
+Qed.
+
+(* ========================================================================================== *)
+(* 5. One step: invariant, consumer-visible specification, integrity of the ghost "handed out"  *)
+
+Definition is_next_op (o : op) : bool := match o with ONext _ _ => true | _ => false end.
+
+(* Next / Head on an iterator the consumer has not stopped: the result is an error (nothing
+   moves), or the next element of the uncached answer, or Done exactly when everything has been
+   handed out. *)
+Definition step_spec (W : world) (st : state) (o : op) : Prop :=
+  match o with
+  | ONext i _ | OHead i _ =>
+      forall it k, nth_error (st_iters st) i = Some it -> it_live it = true -> it_key it = Some k ->
+        exists r it', snd (step st o) = ORes r /\
+                      nth_error (st_iters (fst (step st o))) i = Some it' /\
+                      res_spec (w_full W k) (it_norm it) (is_next_op o) (it_out it) (it_out it') r
+  | _ => True
+  end.
+
+Definition extra_of (o : op) (x : out) (j : nat) : list tuple :=
+  match o, x with
+  | ONext i _, ORes (RItem t) => if Nat.eqb i j then [t] else []
+  | _, _ => []
+  end.
+
+(* the ghost field is exactly the list of tuples that Next returned on that iterator; keys never
+   change *)
+Definition out_frame (st : state) (o : op) : Prop :=
+  forall j it, nth_error (st_iters st) j = Some it ->
+    exists it', nth_error (st_iters (fst (step st o))) j = Some it' /\
+                it_key it' = it_key it /\ it_var it' = it_var it /\
+                it_out it' = it_out it ++ extra_of o (snd (step st o)) j.
+
+Lemma frame_upd (l : list iter) i it it' extra :
+  nth_error l i = Some it -> it_key it' = it_key it -> it_var it' = it_var it ->
+  it_out it' = it_out it ++ extra ->
+  forall j itj, nth_error l j = Some itj ->
+    exists itj', nth_error (upd_nth i it' l) j = Some itj' /\ it_key itj' = it_key itj /\
+                 it_var itj' = it_var itj /\
+                 it_out itj' = it_out itj ++ (if Nat.eqb i j then extra else []).
+Proof.
+  intros Hn Hk Hv Ho j itj Hj. destruct (Nat.eqb i j) eqn:E.
+  - apply Nat.eqb_eq in E. subst j. rewrite Hn in Hj. inversion Hj; subst itj.
+    exists it'. split; [eapply nth_error_upd_same; eassumption|auto].
+  - apply Nat.eqb_neq in E. exists itj. rewrite nth_error_upd_other by assumption.
+    rewrite app_nil_r. auto.
+Qed.
+
+Lemma frame_same (l : list iter) :
+  forall j itj, nth_error l j = Some itj ->
+    exists itj', nth_error l j = Some itj' /\ it_key itj' = it_key itj /\ it_var itj' = it_var itj /\
+                 it_out itj' = it_out itj ++ [].
+Proof. intros j itj Hj. exists itj. rewrite app_nil_r. auto. Qed.
+
+Lemma miss_next_out m c :
+  mi_out (fst (miss_next m c)) = mi_out m ++ (match snd (miss_next m c) with RItem t => [t] | _ => [] end).
+Proof.
+  unfold miss_next. destruct (mi_closing m); simpl; [symmetry; apply app_nil_r|].
+  destruct (inner_call true c (mi_inner m)) as [inn r]. destruct r as [t| |e]; simpl.
+  - reflexivity.
+  - symmetry; apply app_nil_r.
+  - destruct (is_cancel e); simpl; symmetry; apply app_nil_r.
+Qed.
+
+Lemma hit_call_out b h c :
+  hi_out (fst (hit_call b h c)) =
+  hi_out h ++ (if b then match snd (hit_call b h c) with RItem t => [t] | _ => [] end else []).
+Proof.
+  unfold hit_call. destruct (ctx_err c); simpl; [destruct b; symmetry; apply app_nil_r|].
+  destruct (hi_stopped h); simpl; [destruct b; symmetry; apply app_nil_r|].
+  destruct (nth_error (hi_items h) (hi_pos h)); simpl; destruct b; simpl;
+    try reflexivity; symmetry; apply app_nil_r.
+Qed.
+
+Lemma bg_frame_out_frame st st' i m o x :
+  nth_error (st_iters st) i = Some (IMiss m) -> bg_frame st st' i m ->
+  (forall j, extra_of o x j = []) ->
+  forall j it, nth_error (st_iters st) j = Some it ->
+    exists it', nth_error (st_iters st') j = Some it' /\ it_key it' = it_key it /\
+                it_var it' = it_var it /\ it_out it' = it_out it ++ extra_of o x j.
+Proof.
+  intros Hn (m' & Hit & Ho & Hk & Hc & Hv) Hex j it Hj. rewrite Hex, Hit.
+  destruct (frame_upd (st_iters st) i (IMiss m) (IMiss m') [] Hn) with (j := j) (itj := it)
+    as (it' & H1 & H2 & H3 & H4); simpl; try congruence.
+  - rewrite app_nil_r. assumption.
+  - exists it'. destruct (Nat.eqb i j); auto.
+Qed.
+
+Lemma step_all W st o :
+  Inv W st -> op_ok W o ->
+  Inv W (fst (step st o)) /\ step_spec W st o /\ out_frame st o.
+Proof.
+  intros HI0 Hop.
+  assert (HI : Inv W (tick st)) by (apply Inv_tick; assumption).
+  destruct o as [q|i c|i c|i|i|i|mk ts|k|]; unfold step_spec, out_frame, step.
+  - (* open *)
+    destruct (do_open_inv W (tick st) q HI Hop) as (H1 & it & H2).
+    split; [exact H1|]. split; [exact I|].
+    intros j itj Hj. exists itj. rewrite H2. simpl st_iters in *.
+    rewrite nth_error_app1 by (apply nth_error_Some; congruence).
+    unfold extra_of. rewrite app_nil_r. auto.
+  - (* next *)
+    simpl st_iters. destruct (nth_error (st_iters st) i) as [[m|h|k inn o|]|] eqn:En.
+    + destruct (miss_next m c) as [m' r] eqn:Em.
+      assert (Hg : miss_good W m) by (apply (Inv_iter _ _ _ _ HI0 En)).
+      destruct (miss_next_good _ _ _ _ _ Hg Em) as (Hg' & Hk & Hv & Hc & Hs).
+      pose proof (miss_next_out m c) as Hout. rewrite Em in Hout. simpl in Hout.
+      simpl. split; [apply Inv_set_iter; assumption|]. split.
+      * intros it k0 Hit Hlive Hkey. inversion Hit; subst it. simpl in *.
+        inversion Hkey; subst k0.
+        exists r, (IMiss m'). split; [reflexivity|]. split; [eapply nth_error_upd_same; eassumption|].
+        apply Hs. destruct (mi_closing m); [discriminate|reflexivity].
+      * intros j itj Hj.
+        destruct (frame_upd (st_iters st) i (IMiss m) (IMiss m')
+                            (match r with RItem t => [t] | _ => [] end) En) with (j := j) (itj := itj)
+          as (it' & H1 & H2 & H3 & H4); simpl; auto; try congruence.
+        exists it'. split; [exact H1|]. split; [exact H2|]. split; [exact H3|].
+        rewrite H4. unfold extra_of. destruct r; destruct (Nat.eqb i j); reflexivity.
+    + destruct (hit_call true h c) as [h' r] eqn:Eh.
+      assert (Hg : hit_good W h) by (apply (Inv_iter _ _ _ _ HI0 En)).
+      destruct (hit_call_good _ _ _ _ _ _ Hg Eh) as (Hg' & Hk & Hv & Hc & Hs).
+      pose proof (hit_call_out true h c) as Hout. rewrite Eh in Hout. simpl in Hout.
+      simpl. split; [apply Inv_set_iter; assumption|]. split.
+      * intros it k0 Hit Hlive Hkey. inversion Hit; subst it. simpl in *.
+        inversion Hkey; subst k0.
+        exists r, (IHit h'). split; [reflexivity|]. split; [eapply nth_error_upd_same; eassumption|].
+        assert (Hst : hi_stopped h = false) by (destruct (hi_stopped h); [discriminate|reflexivity]).
+        specialize (Hs Hst). destruct (hi_var h); exact Hs.
+      * intros j itj Hj.
+        destruct (frame_upd (st_iters st) i (IHit h) (IHit h')
+                            (match r with RItem t => [t] | _ => [] end) En) with (j := j) (itj := itj)
+          as (it' & H1 & H2 & H3 & H4); simpl; auto; try congruence.
+        exists it'. split; [exact H1|]. split; [exact H2|]. split; [exact H3|].
+        rewrite H4. unfold extra_of. destruct r; destruct (Nat.eqb i j); reflexivity.
+    + destruct (inner_call true c inn) as [inn' r] eqn:Ei.
+      assert (Hg : byp_good W k inn o) by (apply (Inv_iter _ _ _ _ HI0 En)).
+      destruct (byp_call_good _ _ _ _ _ _ _ _ Hg Ei) as (Hg' & Hst' & Hs). simpl in Hg', Hs.
+      simpl. split; [apply Inv_set_iter; assumption|]. split.
+      * intros it k0 Hit Hlive Hkey. inversion Hit; subst it. simpl in *.
+        inversion Hkey; subst k0.
+        exists r, (IBypass k inn' (match r with RItem t => o ++ [t] | _ => o end)).
+        split; [reflexivity|]. split; [eapply nth_error_upd_same; eassumption|].
+        apply Hs. destruct (in_stopped inn); [discriminate|reflexivity].
+      * intros j itj Hj.
+        destruct (frame_upd (st_iters st) i (IBypass k inn o)
+                            (IBypass k inn' (match r with RItem t => o ++ [t] | _ => o end))
+                            (match r with RItem t => [t] | _ => [] end) En) with (j := j) (itj := itj)
+          as (it' & H1 & H2 & H3 & H4); simpl; auto.
+        { destruct r; simpl; try reflexivity; symmetry; apply app_nil_r. }
+        exists it'. split; [exact H1|]. split; [exact H2|]. split; [exact H3|].
+        rewrite H4. unfold extra_of. destruct r; destruct (Nat.eqb i j); reflexivity.
+    + simpl. split; [exact HI|]. split.
+      * intros it k0 Hit Hlive. inversion Hit; subst it. discriminate.
+      * intros j itj Hj. unfold extra_of. apply frame_same. exact Hj.
+    + simpl. split; [exact HI|]. split.
+      * intros it k0 Hit. discriminate.
+      * intros j itj Hj. unfold extra_of. apply frame_same. exact Hj.
+  - (* head *)
+    simpl st_iters. destruct (nth_error (st_iters st) i) as [[m|h|k inn o|]|] eqn:En.
+    + destruct (miss_head m c) as [m' r] eqn:Em.
+      assert (Hg : miss_good W m) by (apply (Inv_iter _ _ _ _ HI0 En)).
+      destruct (miss_head_good _ _ _ _ _ Hg Em) as (Hg' & Hk & Hv & Hc & Ho & Hs).
+      simpl. split; [apply Inv_set_iter; assumption|]. split.
+      * intros it k0 Hit Hlive Hkey. inversion Hit; subst it. simpl in *.
+        inversion Hkey; subst k0.
+        exists r, (IMiss m'). split; [reflexivity|]. split; [eapply nth_error_upd_same; eassumption|].
+        apply Hs. destruct (mi_closing m); [discriminate|reflexivity].
+      * intros j itj Hj.
+        destruct (frame_upd (st_iters st) i (IMiss m) (IMiss m') [] En) with (j := j) (itj := itj)
+          as (it' & H1 & H2 & H3 & H4); simpl; auto; try congruence.
+        { rewrite app_nil_r. exact Ho. }
+        exists it'. split; [exact H1|]. split; [exact H2|]. split; [exact H3|].
+        rewrite H4. unfold extra_of. destruct (Nat.eqb i j); reflexivity.
+    + destruct (hit_call false h c) as [h' r] eqn:Eh.
+      assert (Hg : hit_good W h) by (apply (Inv_iter _ _ _ _ HI0 En)).
+      destruct (hit_call_good _ _ _ _ _ _ Hg Eh) as (Hg' & Hk & Hv & Hc & Hs).
+      pose proof (hit_call_out false h c) as Hout. rewrite Eh in Hout. simpl in Hout.
+      simpl. split; [apply Inv_set_iter; assumption|]. split.
+      * intros it k0 Hit Hlive Hkey. inversion Hit; subst it. simpl in *.
+        inversion Hkey; subst k0.
+        exists r, (IHit h'). split; [reflexivity|]. split; [eapply nth_error_upd_same; eassumption|].
+        assert (Hst : hi_stopped h = false) by (destruct (hi_stopped h); [discriminate|reflexivity]).
+        specialize (Hs Hst). destruct (hi_var h); exact Hs.
+      * intros j itj Hj.
+        destruct (frame_upd (st_iters st) i (IHit h) (IHit h') [] En) with (j := j) (itj := itj)
+          as (it' & H1 & H2 & H3 & H4); simpl; auto; try congruence.
+        exists it'. split; [exact H1|]. split; [exact H2|]. split; [exact H3|].
+        rewrite H4. unfold extra_of. destruct (Nat.eqb i j); reflexivity.
+    + destruct (inner_call false c inn) as [inn' r] eqn:Ei.
+      assert (Hg : byp_good W k inn o) by (apply (Inv_iter _ _ _ _ HI0 En)).
+      destruct (byp_call_good _ _ _ _ _ _ _ _ Hg Ei) as (Hg' & Hst' & Hs). simpl in Hg', Hs.
+      simpl. split; [apply Inv_set_iter; assumption|]. split.
+      * intros it k0 Hit Hlive Hkey. inversion Hit; subst it. simpl in *.
+        inversion Hkey; subst k0.
+        exists r, (IBypass k inn' o).
+        split; [reflexivity|]. split; [eapply nth_error_upd_same; eassumption|].
+        apply Hs. destruct (in_stopped inn); [discriminate|reflexivity].
+      * intros j itj Hj.
+        destruct (frame_upd (st_iters st) i (IBypass k inn o) (IBypass k inn' o) [] En)
+          with (j := j) (itj := itj) as (it' & H1 & H2 & H3 & H4); simpl; auto.
+        { symmetry; apply app_nil_r. }
+        exists it'. split; [exact H1|]. split; [exact H2|]. split; [exact H3|].
+        rewrite H4. unfold extra_of. destruct (Nat.eqb i j); reflexivity.
+    + simpl. split; [exact HI|]. split.
+      * intros it k0 Hit Hlive. inversion Hit; subst it. discriminate.
+      * intros j itj Hj. unfold extra_of. apply frame_same. exact Hj.
+    + simpl. split; [exact HI|]. split.
+      * intros it k0 Hit. discriminate.
+      * intros j itj Hj. unfold extra_of. apply frame_same. exact Hj.
+  - (* stop *)
+    simpl st_iters. destruct (nth_error (st_iters st) i) as [[m|h|k inn o|]|] eqn:En; simpl.
+    + assert (Hg : miss_good W m) by (apply (Inv_iter _ _ _ _ HI0 En)).
+      destruct (miss_stop_good W (st_srv st) m Hg) as (Hg' & Ho & Hk & Hv).
+      split; [apply Inv_set_iter; assumption|]. split; [exact I|].
+      intros j itj Hj.
+      destruct (frame_upd (st_iters st) i (IMiss m) (IMiss (miss_stop (st_srv st) m)) [] En)
+        with (j := j) (itj := itj) as (it' & H1 & H2 & H3 & H4); simpl; auto; try congruence.
+      { rewrite app_nil_r. exact Ho. }
+      exists it'. split; [exact H1|]. split; [exact H2|]. split; [exact H3|].
+      rewrite H4. destruct (Nat.eqb i j); reflexivity.
+    + assert (Hg : hit_good W h) by (apply (Inv_iter _ _ _ _ HI0 En)).
+      split; [apply Inv_set_iter; [assumption|exact Hg]|]. split; [exact I|].
+      intros j itj Hj.
+      destruct (frame_upd (st_iters st) i (IHit h) (IHit (hit_stop h)) [] En)
+        with (j := j) (itj := itj) as (it' & H1 & H2 & H3 & H4); simpl; auto.
+      { symmetry; apply app_nil_r. }
+      exists it'. split; [exact H1|]. split; [exact H2|]. split; [exact H3|].
+      rewrite H4. destruct (Nat.eqb i j); reflexivity.
+    + assert (Hg : byp_good W k inn o) by (apply (Inv_iter _ _ _ _ HI0 En)).
+      split.
+      * apply Inv_set_iter; [assumption|]. simpl. destruct Hg as (H1 & H2 & H3).
+        unfold byp_good. split; [apply inner_good_stop; assumption|]. split; [discriminate|exact H3].
+      * split; [exact I|]. intros j itj Hj.
+        destruct (frame_upd (st_iters st) i (IBypass k inn o) (IBypass k (in_stop inn) o) [] En)
+          with (j := j) (itj := itj) as (it' & H1 & H2 & H3 & H4); simpl; auto.
+        { symmetry; apply app_nil_r. }
+        exists it'. split; [exact H1|]. split; [exact H2|]. split; [exact H3|].
+        rewrite H4. destruct (Nat.eqb i j); reflexivity.
+    + split; [exact HI|]. split; [exact I|]. intros j itj Hj. apply frame_same. exact Hj.
+    + split; [exact HI|]. split; [exact I|]. intros j itj Hj. apply frame_same. exact Hj.
+  - (* bg *)
+    simpl st_iters. destruct (nth_error (st_iters st) i) as [[m|h|k inn o|]|] eqn:En;
+      try (simpl; split; [exact HI|]; split; [exact I|]; intros j itj Hj; apply frame_same; exact Hj).
+    destruct (bg_step_inv W (tick st) i m HI En) as (H1 & H2).
+    split; [exact H1|]. split; [exact I|].
+    apply (bg_frame_out_frame (tick st) _ i m); auto.
+  - (* bg timeout *)
+    simpl st_iters. destruct (nth_error (st_iters st) i) as [[m|h|k inn o|]|] eqn:En;
+      try (simpl; split; [exact HI|]; split; [exact I|]; intros j itj Hj; apply frame_same; exact Hj).
+    destruct (bg_timeout_inv W (tick st) i m HI En) as (H1 & H2).
+    split; [exact H1|]. split; [exact I|].
+    apply (bg_frame_out_frame (tick st) _ i m); auto.
+  - (* inval *)
+    simpl. split; [|split; [exact I|intros j itj Hj; apply frame_same; exact Hj]].
+    destruct HI as (Hc & Hw & Hi). unfold Inv; simpl. auto.
+  - (* evict *)
+    simpl. split; [|split; [exact I|intros j itj Hj; apply frame_same; exact Hj]].
+    apply Inv_set_cache; [assumption|]. apply cache_good_del. destruct HI as (Hc & _). exact Hc.
+  - (* cancel server *)
+    simpl. split; [|split; [exact I|intros j itj Hj; apply frame_same; exact Hj]].
+    destruct HI as (Hc & Hw & Hi). unfold Inv; simpl. auto.
+Qed.
+
+(* ========================================================================================== *)
+(* 6. Histories                                                                                *)
+
+Fixpoint hist_ok (W : world) (st : state) (h : list op) : Prop :=
+  match h with
+  | [] => True
+  | o :: h' => step_spec W st o /\ out_frame st o /\ hist_ok W (fst (step st o)) h'
+  end.
+
+Lemma Inv_init W : Inv W init_state.
+Proof.
+  unfold Inv, init_state; simpl. repeat split.
+  - intros k e H. discriminate.
+  - intros k e mx [].
+  - constructor.
+Qed.
+
+Lemma run_cons st o h : fst (run st (o :: h)) = fst (run (fst (step st o)) h).
+Proof. simpl. destruct (step st o) as [st1 x]. simpl. destruct (run st1 h). reflexivity. Qed.
+
+Lemma run_inv W h : forall st, Inv W st -> Forall (op_ok W) h -> Inv W (fst (run st h)).
+Proof.
+  induction h as [|o h IH]; intros st HI Hh; [exact HI|].
+  inversion Hh as [|o' h' Ho Hh']; subst. rewrite run_cons. apply IH; [|assumption].
+  apply (step_all W st o HI Ho).
+Qed.
+
+Lemma hist_ok_inv W h : forall st, Inv W st -> Forall (op_ok W) h -> hist_ok W st h.
+Proof.
+  induction h as [|o h IH]; intros st HI Hh; [exact I|].
+  inversion Hh as [|o' h' Ho Hh']; subst. destruct (step_all W st o HI Ho) as (Hs1 & Hs2 & Hs3).
+  simpl. auto.
+Qed.
+
+Lemma iter_cache_transparent_lemma W h :
+  Forall (op_ok W) h -> hist_ok W init_state h.
+Proof. intro H. apply hist_ok_inv; [apply Inv_init|assumption]. Qed.
+
+Lemma flush_complete_lemma W h :
+  Forall (op_ok W) h ->
+  forall k e mx, In (k, e, mx) (st_writes (fst (run init_state h))) ->
+  match e with
+  | CE1 recs _ => recs = map (elide (w_kf W V1 k)) (w_full W k)
+  | CE2 ms _ => ms = map minimal (w_full W k)
+  end.
+Proof.
+  intros Hh k e mx Hin.
+  destruct (run_inv W h init_state (Inv_init W) Hh) as (_ & Hw & _).
+  exact (Hw k e mx Hin).
+Qed.
+
+(* whatever is in the cache at any time is a whole answer too (entries are only ever created by
+   flush) *)
+Lemma cache_complete_lemma W h :
+  Forall (op_ok W) h ->
+  forall k e, alist_get k (st_cache (fst (run init_state h))) = Some e ->
+  match e with
+  | CE1 recs _ => recs = map (elide (w_kf W V1 k)) (w_full W k)
+  | CE2 ms _ => ms = map minimal (w_full W k)
+  end.
+Proof.
+  intros Hh k e Hin.
+  destruct (run_inv W h init_state (Inv_init W) Hh) as (Hc & _ & _).
+  exact (Hc k e Hin).
+Qed.
+
+Lemma firstn_map {A B} (f : A -> B) n l : firstn n (map f l) = map f (firstn n l).
+Proof. revert n; induction l as [|x l IH]; intros [|n]; simpl; try reflexivity. rewrite IH. reflexivity. Qed.
+
+(* at every moment, what an iterator has handed out is a prefix of the uncached answer *)
+Lemma handed_prefix_lemma W h :
+  Forall (op_ok W) h ->
+  forall i it k, nth_error (st_iters (fst (run init_state h))) i = Some it -> it_key it = Some k ->
+  map (it_norm it) (it_out it) = firstn (length (it_out it)) (map (it_norm it) (w_full W k)).
+Proof.
+  intros Hh i it k Hn Hk.
+  pose proof (Inv_iter W _ i it (run_inv W h init_state (Inv_init W) Hh) Hn) as Hg.
+  destruct it as [m|hh|k0 inn o|]; simpl in *; inversion Hk; subst.
+  - destruct Hg as (_ & _ & _ & _ & _ & Hpre & _). rewrite !map_id'. exact Hpre.
+  - destruct Hg as (Hit & Hpos & Hout).
+    assert (Hlen : length (hi_out hh) = hi_pos hh) by (rewrite Hout; apply firstn_length_self; assumption).
+    rewrite Hlen.
+    assert (Hitems : map (norm_v (hi_var hh)) (hi_items hh) = hi_items hh).
+    { rewrite Hit, map_map. apply map_ext. intro a. apply norm_v_idem. }
+    assert (Hgoal : map (norm_v (hi_var hh)) (hi_out hh)
+                    = firstn (hi_pos hh) (map (norm_v (hi_var hh)) (w_full W (hi_key hh)))).
+    { rewrite Hout, <- firstn_map, Hitems, Hit. reflexivity. }
+    destruct (hi_var hh); exact Hgoal.
+  - destruct Hg as (_ & _ & Hpre). rewrite !map_id'. exact Hpre.
+Qed.
+
+(* ------------------------------------------------------------------------------------------ *)
+(* a hit replays exactly the stored read *)
+
+Fixpoint hit_drain (h : hiter) (n : nat) : list res :=
+  match n with
+  | O => []
+  | S n' => let '(h', r) := hit_call true h CLive in r :: hit_drain h' n'
+  end.
+
+Lemma hit_drain_spec n : forall h,
+  hi_stopped h = false -> (hi_pos h <= length (hi_items h))%nat ->
+  n = (length (hi_items h) - hi_pos h)%nat ->
+  hit_drain h (S n) = map RItem (skipn (hi_pos h) (hi_items h)) ++ [RDone].
+Proof.
+  induction n as [|n IH]; intros h Hs Hp Hn.
+  - assert (Hpos : hi_pos h = length (hi_items h)) by lia.
+    simpl. unfold hit_call. simpl. rewrite Hs.
+    assert (Hnone : nth_error (hi_items h) (hi_pos h) = None) by (apply nth_error_None; lia).
+    rewrite Hnone. rewrite Hpos, skipn_all. reflexivity.
+  - assert (Hlt : (hi_pos h < length (hi_items h))%nat) by lia.
+    destruct (nth_error (hi_items h) (hi_pos h)) as [t|] eqn:En;
+      [|apply nth_error_None in En; lia].
+    change (hit_drain h (S (S n))) with
+      (let '(h', r) := hit_call true h CLive in r :: hit_drain h' (S n)).
+    unfold hit_call at 1. simpl ctx_err. cbv iota. rewrite Hs, En.
+    rewrite IH; simpl; auto; try lia.
+    assert (Hsk : skipn (hi_pos h) (hi_items h) = t :: skipn (S (hi_pos h)) (hi_items h)).
+    { clear -En. revert En. generalize (hi_pos h) as p. generalize (hi_items h) as l.
+      induction l as [|x l IHl]; intros [|p] En; simpl in *; try discriminate.
+      - inversion En; reflexivity.
+      - apply IHl. exact En. }
+    rewrite Hsk. reflexivity.
+Qed.
+
+Lemma cache_hit_eq_read_lemma st q e c' :
+  bypass q = false ->
+  find_in_cache (q_var q) (st_cache st) (st_inval st) (q_key q) (q_markers q) = (Some e, c') ->
+  snd (step st (OOpen q)) = OOpened true false /\
+  exists h, st_iters (fst (step st (OOpen q))) = st_iters st ++ [IHit h] /\
+            hi_items h = decode (kf_of q) e /\
+            hit_drain h (S (length (hi_items h))) = map RItem (decode (kf_of q) e) ++ [RDone].
+Proof.
+  intros Hb Hf. unfold step, do_open. rewrite Hb. simpl st_cache. simpl st_inval. rewrite Hf. simpl.
+  split; [reflexivity|].
+  set (hh := mkHI (q_var q) (q_key q) (decode (kf_of q) e) 0 false []).
+  exists hh. split; [reflexivity|]. split; [reflexivity|].
+  apply (hit_drain_spec (length (hi_items hh)) hh); simpl; auto; lia.
+Qed.
+
+(* ========================================================================================== *)
+(* 7. Results at or above the size limit are not cached (no hypothesis on the history at all)   *)
+
+Definition size_ok (e : centry) (mx : nat) : Prop :=
+  match e with
+  | CE1 recs _ => recs = [] \/ (length recs < mx)%nat
+  | CE2 ms _ => (1 <= length ms <= mx)%nat
+  end.
+
+Definition miss_size (m : miter) : Prop :=
+  match mi_buf m with
+  | None => True
+  | Some b =>
+      match mi_var m with
+      | V1 => (b = [] \/ (length b < mi_max m)%nat) /\
+              (mi_recs m = [] \/ (length (mi_recs m) < mi_max m)%nat)
+      | V2 => (length b <= mi_max m)%nat
+      end
+  end.
+
+Definition iter_size (it : iter) : Prop := match it with IMiss m => miss_size m | _ => True end.
+
+Definition SInv (st : state) : Prop :=
+  (forall k e mx, In (k, e, mx) (st_writes st) -> size_ok e mx) /\ Forall iter_size (st_iters st).
+
+Ltac sz := unfold miss_size in *; simpl in *; try exact I; try tauto; try lia.
+
+Lemma SInv_set_iter st i it : SInv st -> iter_size it -> SInv (set_iter st i it).
+Proof. intros (Hw & Hi) H. split; simpl; [exact Hw|apply Forall_upd_nth; assumption]. Qed.
+
+Lemma SInv_release st k i : SInv st -> SInv (release_sf st k i).
+Proof.
+  intro H. unfold release_sf. destruct (alist_get k (st_sf st)); [|assumption].
+  destruct (Nat.eqb n i); exact H.
+Qed.
+
+Lemma miss_size_none v k mk kf mx inn recs cl ini ph o :
+  miss_size (mkMI v k mk kf mx inn None recs cl ini ph o).
+Proof. sz. Qed.
+
+Lemma flush_size st m st1 m2 :
+  SInv st -> miss_size m -> flush st m = (st1, m2) ->
+  SInv st1 /\ st_iters st1 = st_iters st /\ miss_size (mi_finish m2).
+Proof.
+  intros (Hw & Hi) Hm H.
+  destruct m as [v k mk kf mx inn buf recs cl ini ph o]. unfold flush in H; simpl in H.
+  destruct v; destruct buf as [b|].
+  - destruct (st_srv st); inversion H; subst; clear H; simpl.
+    + split; [split; assumption|]. split; [reflexivity|]. sz.
+    + split; [|split; [reflexivity|sz]]. split; simpl; [|assumption].
+      intros k' e' mx' Hin. apply in_app_or in Hin as [Hin|Hin]; [eauto|].
+      destruct Hin as [Hin|[]]. inversion Hin; subst. simpl. sz.
+  - inversion H; subst. split; [split; assumption|]. split; [reflexivity|sz].
+  - destruct b as [|t b]; inversion H; subst; clear H; simpl.
+    + split; [split; assumption|]. split; [reflexivity|]. sz.
+    + split; [|split; [reflexivity|sz]]. split; simpl; [|assumption].
+      intros k' e' mx' Hin. apply in_app_or in Hin as [Hin|Hin]; [eauto|].
+      destruct Hin as [Hin|[]]. inversion Hin; subst. simpl. rewrite map_length. sz.
+  - inversion H; subst. split; [split; assumption|]. split; [reflexivity|sz].
+Qed.
+
+Lemma bg_step_size st i m :
+  SInv st -> nth_error (st_iters st) i = Some (IMiss m) -> SInv (fst (bg_step st i m)).
+Proof.
+  intros HS Hn.
+  assert (Hm : miss_size m).
+  { destruct HS as (_ & Hi). apply (Forall_nth_error _ _ _ _ Hi Hn). }
+  destruct m as [v k mk kf mx inn buf recs cl ini ph o].
+  unfold bg_step; simpl. destruct ph; simpl; try exact HS.
+  - destruct v.
+    + destruct (find_in_cache V1 (st_cache st) (st_inval st) k mk) as [found c'].
+      assert (HS1 : SInv (set_cache st c')) by exact HS.
+      destruct found; simpl; [apply SInv_set_iter; [assumption|sz]|].
+      destruct (is_invalid_at (st_inval st) ini mk); simpl; [apply SInv_set_iter; [assumption|sz]|].
+      unfold mi_set_recs; simpl.
+      set (m0 := mkMI V1 k mk kf mx inn buf [] cl ini PBgInit o).
+      destruct (fold_add_spec (match buf with Some b => b | None => [] end) m0) as (Hs & Hb).
+      simpl in Hs, Hb.
+      set (m1 := fold_left (fun mm t => fst (add_to_buffer mm t))
+                           (match buf with Some b => b | None => [] end) m0) in *.
+      destruct Hs as (Hv & Hk & Hmk & Hkf1 & Hmx & Hinn & Hcl1 & Hini & Hph & Ho).
+      destruct m1 as [v1 k1 mk1 kf1 mx1 inn1 buf1 recs1 cl1 ini1 ph1 o1]. simpl in *.
+      subst v1 k1 mk1 kf1 mx1 inn1 cl1 ini1 ph1 o1.
+      apply SInv_set_iter; [assumption|]. simpl.
+      destruct buf1 as [b1|]; [|sz].
+      destruct Hb as [Hb|(Hb1 & Hr1)]; [discriminate|]. subst buf. 
+      unfold miss_size in *; simpl in *. rewrite Hr1, map_length.
+      destruct Hm as (Hm1 & _). split; [exact Hm1|].
+      destruct Hm1 as [->|Hlt]; [left; reflexivity|right; exact Hlt].
+    + destruct (alist_get k (st_cache st)) as [[r0 t0|m0 t0]|]; simpl;
+        apply SInv_set_iter; try assumption; sz.
+  - set (mm := mkMI v k mk kf mx inn buf recs cl ini PBgHead o) in *.
+    destruct (inner_call false (bg_ctx st mm) inn) as [inn' r].
+    destruct r as [t| |e].
+    + simpl; apply SInv_set_iter; try assumption; sz.
+    + destruct (flush st (mi_set_inner mm inn')) as [st1 m2] eqn:Efl.
+      assert (Hm' : miss_size (mi_set_inner mm inn')) by exact Hm.
+      destruct (flush_size st _ st1 m2 HS Hm' Efl) as (H1 & H2 & H3).
+      simpl. apply SInv_set_iter; assumption.
+    + simpl; apply SInv_set_iter; try assumption; sz.
+  - destruct (alist_get k (st_sf st)); simpl; apply SInv_set_iter; try assumption; exact Hm.
+  - destruct (alist_get k (st_sf st)) as [ow|]; simpl.
+    + destruct (Nat.eqb ow owner); simpl; [exact HS|]. apply SInv_set_iter; [assumption|exact Hm].
+    + apply SInv_set_iter; [assumption|exact Hm].
+  - set (mm := mkMI v k mk kf mx inn buf recs cl ini PBgLoop o) in *.
+    destruct (inner_call true (bg_ctx st mm) inn) as [inn' r].
+    destruct r as [t| |e].
+    + destruct v.
+      * unfold add_to_buffer; simpl. destruct buf as [b|]; simpl.
+        -- destruct (mx <=? length (recs ++ [elide kf t]))%nat eqn:Ele; simpl.
+           ++ apply SInv_set_iter; [assumption|sz].
+           ++ apply SInv_set_iter; [assumption|]. apply Nat.leb_gt in Ele.
+              unfold miss_size in *; simpl in *. destruct Hm as (Hm1 & _). split; [exact Hm1|right; exact Ele].
+        -- apply SInv_set_iter; [apply SInv_release; assumption|sz].
+      * destruct buf as [b|]; simpl.
+        -- destruct (mx <? length (b ++ [t]))%nat eqn:Elt; simpl.
+           ++ apply SInv_set_iter; [apply SInv_release; assumption|sz].
+           ++ apply SInv_set_iter; [assumption|]. apply Nat.ltb_ge in Elt. sz.
+        -- apply SInv_set_iter; [apply SInv_release; assumption|sz].
+    + destruct (flush st (mi_set_inner mm inn')) as [st1 m2] eqn:Efl.
+      assert (Hm' : miss_size (mi_set_inner mm inn')) by exact Hm.
+      destruct (flush_size st _ st1 m2 HS Hm' Efl) as (H1 & H2 & H3).
+      simpl. apply SInv_set_iter; [apply SInv_release; assumption|assumption].
+    + apply SInv_set_iter; [apply SInv_release; assumption|]. destruct v; simpl; [exact Hm|sz].
+Qed.
+
+Lemma step_size st o : SInv st -> SInv (fst (step st o)).
+Proof.
+  intro HS0.
+  assert (HS : SInv (tick st)) by exact HS0.
+  assert (Hget : forall i m, nth_error (st_iters st) i = Some (IMiss m) -> miss_size m).
+  { intros i m Hn. destruct HS0 as (_ & Hi). apply (Forall_nth_error _ _ _ _ Hi Hn). }
+  destruct o as [q|i c|i c|i|i|i|mk ts|k|]; unfold step.
+  - unfold do_open. destruct HS as (Hw & Hi).
+    assert (Hpush : forall c it, iter_size it ->
+               SInv (push_iter (set_cache (tick st) c) it)).
+    { intros c0 it Hit. split; simpl; [exact Hw|]. apply Forall_app. split; [exact Hi|].
+      constructor; [exact Hit|constructor]. }
+    destruct (bypass q).
+    + destruct (q_openerr q); simpl; apply (Hpush (st_cache st)); exact I.
+    + destruct (find_in_cache (q_var q) (st_cache (tick st)) (st_inval (tick st)) (q_key q) (q_markers q))
+        as [found c'].
+      destruct found; simpl; [apply Hpush; exact I|].
+      destruct (q_openerr q); simpl; apply Hpush; [exact I|].
+      simpl. unfold miss_size; simpl. destruct (q_var q); [split; left; reflexivity|lia].
+  - simpl st_iters. destruct (nth_error (st_iters st) i) as [[m|h|k inn o|]|] eqn:En; simpl; try exact HS.
+    + destruct (miss_next m c) as [m' r] eqn:Em. simpl. apply SInv_set_iter; [assumption|].
+      specialize (Hget _ _ En). simpl.
+      destruct m as [v k mk kf mx inn buf recs cl ini ph o]. unfold miss_next in Em; simpl in Em.
+      destruct cl; [inversion Em; subst; exact Hget|].
+      destruct (inner_call true c inn) as [inn' r0]. destruct r0 as [t| |e]; inversion Em; subst; clear Em.
+      * unfold buf_push. destruct buf as [b|]; simpl; [|sz].
+        destruct (over_max v mx (length (b ++ [t]))) eqn:Eo; [sz|].
+        unfold over_max in Eo. destruct v.
+        -- apply Nat.leb_gt in Eo. sz.
+        -- apply Nat.ltb_ge in Eo. sz.
+      * exact Hget.
+      * destruct (is_cancel e); simpl; [exact Hget|sz].
+    + destruct (hit_call true h c). simpl. apply SInv_set_iter; [assumption|exact I].
+    + destruct (inner_call true c inn). simpl. apply SInv_set_iter; [assumption|exact I].
+  - simpl st_iters. destruct (nth_error (st_iters st) i) as [[m|h|k inn o|]|] eqn:En; simpl; try exact HS.
+    + destruct (miss_head m c) as [m' r] eqn:Em. simpl. apply SInv_set_iter; [assumption|].
+      specialize (Hget _ _ En). simpl.
+      destruct m as [v k mk kf mx inn buf recs cl ini ph o]. unfold miss_head in Em; simpl in Em.
+      destruct cl; [inversion Em; subst; exact Hget|].
+      destruct (inner_call false c inn) as [inn' r0]. inversion Em; subst. exact Hget.
+    + destruct (hit_call false h c). simpl. apply SInv_set_iter; [assumption|exact I].
+    + destruct (inner_call false c inn). simpl. apply SInv_set_iter; [assumption|exact I].
+  - simpl st_iters. destruct (nth_error (st_iters st) i) as [[m|h|k inn o|]|] eqn:En; simpl; try exact HS;
+      try (apply SInv_set_iter; [assumption|exact I]).
+    apply SInv_set_iter; [assumption|]. specialize (Hget _ _ En). simpl.
+    destruct m as [v k mk kf mx inn buf recs cl ini ph o]. unfold miss_stop; simpl.
+    destruct cl; [exact Hget|].
+    match goal with |- context [if ?c then _ else _] => destruct c end; exact Hget.
+  - simpl st_iters. destruct (nth_error (st_iters st) i) as [[m|h|k inn o|]|] eqn:En; simpl; try exact HS.
+    apply (bg_step_size (tick st) i m HS En).
+  - simpl st_iters. destruct (nth_error (st_iters st) i) as [[m|h|k inn o|]|] eqn:En; simpl; try exact HS.
+    specialize (Hget _ _ En).
+    destruct m as [v k mk kf mx inn buf recs cl ini ph o]. unfold bg_timeout; simpl.
+    destruct v; [exact HS|]. destruct ph; try exact HS; simpl.
+    + apply SInv_set_iter; [assumption|sz].
+    + apply SInv_set_iter; [assumption|sz].
+    + apply SInv_set_iter; [apply SInv_release; assumption|sz].
+  - exact HS.
+  - exact HS.
+  - exact HS.
+Qed.
+
+Lemma SInv_init : SInv init_state.
+Proof. split; simpl; [intros k e mx []|constructor]. Qed.
+
+Lemma run_size h : forall st, SInv st -> SInv (fst (run st h)).
+Proof.
+  induction h as [|o h IH]; intros st HS; [exact HS|].
+  rewrite run_cons. apply IH. apply step_size. exact HS.
+Qed.
+
+Lemma max_size_not_cached_lemma h :
+  forall k e mx, In (k, e, mx) (st_writes (fst (run init_state h))) ->
+  match e with
+  | CE1 recs _ => recs = [] \/ (length recs < mx)%nat
+  | CE2 ms _ => (1 <= length ms <= mx)%nat
+  end.
+Proof.
+  intros k e mx Hin. destruct (run_size h init_state SInv_init) as (Hw & _).
+  exact (Hw k e mx Hin).
+Qed.
+
+(* ========================================================================================== *)
+(* 8. Concrete worlds used by the non-vacuity examples of Props/C09.v                           *)
+
+Definition ex_ta : tuple := mkT [100;58;49] [114] [117;58;97] [] [] 5.            (* d:1#r@u:a *)
+Definition ex_tb : tuple := mkT [100;58;49] [114] [117;58;98] [99;49] [120] 6.    (* d:1#r@u:b, condition c1 *)
+Definition ex_tc : tuple := mkT [100;58;49] [114] [103;58;120;35;109] [] [] 7.    (* d:1#r@g:x#m *)
+Definition ex_full : list tuple := [ex_ta; ex_tb; ex_tc].
+
+Definition ex_q (v : variant) (script : list (option errk)) (lossy : bool) : qdesc :=
+  mkQ v KRut false [100;58;49] [114] [] 7 [100;101] 10 ex_full script lossy None.
+
+Definition ex_world : world :=
+  mkW (fun _ => ex_full) (fun v _ => kf_of (ex_q v [] false)).
+
+(* read one tuple, get a cancellation, stop; the goroutine meets an unrelated error at Head, drains,
+   flushes; then a second read is served from the cache *)
+Definition ex_history (v : variant) : list op :=
+  [OOpen (ex_q v [None; Some ECancel; Some EOther] false);
+   ONext 0 CLive; ONext 0 CLive; ONext 0 CCancelled; OStop 0;
+   OBg 0; OBg 0; OBg 0; OBg 0; OBg 0; OBg 0;
+   OOpen (ex_q v [] false);
+   ONext 1 CLive; ONext 1 CLive; OHead 1 CLive; ONext 1 CLive; ONext 1 CLive].
+
+(* the same with an inner iterator that drops the element it was about to return when it reports
+   the cancellation *)
+Definition ex_lossy_history : list op :=
+  [OOpen (ex_q V1 [None; Some ECancel] true);
+   ONext 0 CLive; ONext 0 CLive; OStop 0; OBg 0; OBg 0; OBg 0; OBg 0; OBg 0].
+
+Lemma ex_history_ok v : Forall (op_ok ex_world) (ex_history v).
+Proof.
+  unfold ex_history.
+  repeat (apply Forall_cons; [try exact I; (split; [reflexivity|split; [reflexivity|]]; intros _; destruct v; split; reflexivity)|]).
+  apply Forall_nil.
+Qed.
+
+Lemma flush_needs_inner_contract_lemma :
+  exists h k recs ts mx,
+    In (k, CE1 recs ts, mx) (st_writes (fst (run init_state h))) /\
+    (forall o, In o h -> match o with OOpen q => q_items q = w_full ex_world (q_key q) | _ => True end) /\
+    recs <> map (elide (w_kf ex_world V1 k)) (w_full ex_world k).
+Proof.
+  exists ex_lossy_history. vm_compute. do 4 eexists. split; [left; reflexivity|].
+  split.
+  - intros o Ho. repeat (destruct Ho as [<-|Ho]; [try exact I; reflexivity|]). destruct Ho.
+  - discriminate.
 Qed.
